@@ -298,6 +298,8 @@ func runOp(h *handle, r *opReq) (res opRes) {
 			return
 		}
 		setErr(h.hdb.PKSelect(r.Table, key, hlv, r.Cols...))
+	case "noop":
+		// nothing: the handle is open (in "keep" mode the first operation opens it) and has not read anything
 	case "columns":
 		cols, err := h.hdb.Columns(r.Table)
 		setErr(err)
